@@ -12,10 +12,10 @@ ASSUMPTIONS = [
 ]
 
 
-def gen_cfg(kind, nq, maxt, maxrem, invariants=True):
-    q = ", ".join('"q%d"' % i for i in range(nq))
-    s = ('SPECIFICATION Spec\nCONSTANTS Kind = "%s"\n Q = {%s}\n Sym = {"a","b"}\n MaxT = %d\n MaxRem = %d\n'
-         'VIEW View\nCHECK_DEADLOCK FALSE\n' % (kind, q, maxt, maxrem))
+def gen_cfg(kind, nq, maxt, maxrem, invariants=True, syms=("a", "b"), maxs=3, maxf=3):
+    s = ('SPECIFICATION Spec\nCONSTANTS Kind = "%s"\n NQ = %d\n Sym = {%s}\n MaxT = %d\n MaxRem = %d\n'
+         ' MaxS = %d\n MaxF = %d\nVIEW View\nCHECK_DEADLOCK FALSE\n'
+         % (kind, nq, ", ".join('"%s"' % x for x in syms), maxt, maxrem, maxs, maxf))
     if invariants:
         s += "INVARIANT TypeOK\nINVARIANT DetOK\nINVARIANT RevOK\nINVARIANT LangOK\nINVARIANT EmptyOK\n"
     return s
@@ -69,6 +69,14 @@ def random_cases(n, seed, nq=5, nt=7):
         rnd.shuffle(calls)
         cases.append(dict(kind=kind, calls=calls, spool="int5", ypool="ab", perm=None, family="random"))
     return cases
+
+
+def sample(states, k, seed):
+    """Deterministic 1:k sample of a TLC dump (the dump order itself depends on worker scheduling)."""
+    if k <= 1:
+        return states
+    keyed = sorted(states, key=lambda st: tlaparse.to_tla(st["aut"]))
+    return [st for i, st in enumerate(keyed) if (i + seed) % k == 0]
 
 
 def generate(tier, seed, work, stats):
